@@ -895,7 +895,7 @@ def run(tier, seed, replay=None):
     unknown = [t for t in found if not any(f['status'] == 'open' and matcher(f, t[0]) for f in ck.findings)]
     if unknown and replay is None and unknown[0][0].get('kind', 'stack') == 'stack':
         cur = unknown[0]
-        for _ in range(10):
+        for _ in range(20):
             cands = shrink_candidates(cur[0])
             if not cands:
                 break
